@@ -1,4 +1,122 @@
-import MptModel.Impl.Convert
+/-
+  C07 — scalar conversion is exact or refused.
+
+  M = `conv` (Impl/Convert.lean) evaluates the converter tables that translate/cextract.py regenerates from
+  mptcore/convert/data_convert_int.c, data_convert_float.c, data_converter.c on every run
+  (Generated/ConvInt.lean), plus the hand model of text -> integer.  S = Spec/Scalar.lean (what a scalar
+  object denotes, what a numeral denotes).
+
+  The theorems about `conv` are proved by *deciding a verified checker on the generated table*
+  (Lemmas/Convert.lean, Lemmas/ConvFloat.lean): a widened bound, a dropped `if (dest)`, a store of the wrong
+  width or an unguarded `isgraph` in the C source changes the table and makes `by decide` fail.
+
+  Not proved here (differential only, see the level note): floating targets beyond exactly representable
+  integers (rounding, finite -> infinity), text -> floating point.  `float_no_saturation_statement` records the
+  clause.
+-/
+import MptModel.Lemmas.Convert
+import MptModel.Lemmas.ConvText
+import MptModel.Lemmas.ConvFloat
 namespace Mpt.C07
-theorem placeholder : True := trivial
+open Mpt Mpt.Conv Mpt.Scalar Mpt.Flt
+
+/-- Integer -> integer (all 9 x 9 pairs of c b y n q i u x t, every value of the source type, with and without
+    destination): the conversion never has undefined behaviour; if it is accepted without destination nothing is
+    stored; if it is accepted with destination the target object denotes exactly the source number — and a
+    character target only ever receives a printable 7-bit character. -/
+theorem int_exact (src tgt : Ty) (hs : src ∈ Ty.ints) (ht : tgt ∈ Ty.ints) (v : Int) (hv : inRange src v) (d : Bool) :
+    verdict (conv src tgt (.int v) d) ≠ .broken ∧
+    ∀ o n, conv src tgt (.int v) d = .ok (o, n) →
+      (d = false → o = none) ∧
+      (d = true → ∃ bits, o = some (.int bits) ∧ denote tgt bits = v ∧ (tgt = .c → isGraph v = true)) := by
+  have htab : checkIntTable = true := by decide
+  unfold checkIntTable at htab
+  rw [List.all_eq_true] at htab
+  have h1 := htab src hs
+  rw [List.all_eq_true] at h1
+  have hp := h1 tgt ht
+  have hsf : src.isFloat = false := by
+    cases src <;> simp [Ty.ints] at hs <;> rfl
+  rcases checkPair_sound src tgt v d hp hsf hv with ⟨e, he⟩ | ⟨o, n, ho, h2, h3⟩
+  · exact ⟨by simp [he, verdict], by intro o n h; simp [he] at h⟩
+  · refine ⟨by simp [ho, verdict], ?_⟩
+    intro o' n' h
+    rw [ho] at h
+    simp only [Res.ok.injEq, Prod.mk.injEq] at h
+    obtain ⟨rfl, rfl⟩ := h
+    exact ⟨h2, h3⟩
+
+/-- instances: uint32 65535 -> 'q' is stored exactly, 65536 is refused, int32 -8194 -> 'c' is refused -/
+example : conv .u .q (.int 65535) true = .ok (some (.int 65535), 2) := by decide
+example : conv .u .q (.int 65536) true = .err .BadValue := by decide
+example : conv .i .c (.int (-8194)) true = .err .BadValue := by decide
+example : conv .y .u (.int 200) false = .ok (none, 4) := by decide
+
+/-- Asking whether a conversion is possible (no destination) gives the same verdict as performing it:
+    all 12 x 12 pairs, every integer or floating source value. -/
+theorem query_same_verdict (src tgt : Ty) (s : Src) :
+    verdict (conv src tgt s false) = verdict (conv src tgt s true) :=
+  query_of_table (by decide) src tgt s
+
+example : verdict (conv .q .e (.int 7) false) = .accepted := by decide
+
+/-- Integer -> floating point: a source value with fewer significant bits than the target's significand
+    (24 / 53 / 64) is either refused or stored as exactly that number. -/
+theorem int_to_float_exact (src tgt : Ty) (hs : src ∈ Ty.ints) (ht : tgt ∈ Ty.floats) (v : Int) (hv : inRange src v)
+    (hsmall : v.natAbs < 2 ^ precision tgt) :
+    verdict (conv src tgt (.int v) true) ≠ .broken ∧
+    ∀ o n, conv src tgt (.int v) true = .ok (o, n) → ∃ y, o = some (.flt y) ∧ y.toInt? = some v := by
+  have htab : checkFloatTable = true := by decide
+  unfold checkFloatTable at htab
+  rw [List.all_eq_true] at htab
+  have h1 := htab src hs
+  rw [List.all_eq_true] at h1
+  have hp := h1 tgt ht
+  have hsf : src.isFloat = false := by
+    cases src <;> simp [Ty.ints] at hs <;> rfl
+  rcases checkPairF_sound src tgt v hp hsf hv hsmall with ⟨e, he⟩ | ⟨n, hn⟩
+  · exact ⟨by simp [he, verdict], by intro o n h; simp [he] at h⟩
+  · refine ⟨by simp [hn, verdict], ?_⟩
+    intro o n' h
+    rw [hn] at h
+    simp only [Res.ok.injEq, Prod.mk.injEq] at h
+    exact ⟨ofInt v, h.1.symm, ofInt_toInt v⟩
+
+example : precision .f = 24 ∧ precision .d = 53 ∧ precision .e = 64 := by decide
+
+/-- Text -> integer (`mpt_convert_number` and the `mpt_c[u]intN` functions it calls; targets b y n q i u x t):
+    never undefined behaviour; an accepted conversion consumed a prefix of the text that is either blank (then
+    nothing is stored) or a numeral — optional white space, optional sign, C integer literal — of a number in
+    the target's range, and the stored object denotes exactly that number. -/
+theorem text_int_exact (tgt : Ty) (ht : tgt ∈ textTargets) (s : List Nat) (d : Bool) :
+    verdict (convertNumber tgt s d) ≠ .broken ∧
+    ∀ o n, convertNumber tgt s d = .ok (o, n) → TextOK tgt s d o n :=
+  ⟨convertNumber_notBroken tgt ht s d, fun o n h => convertNumber_ok tgt s d o n h⟩
+
+/-- the same for `mpt_convert_string` (skips leading white space itself) -/
+theorem text_string_exact (tgt : Ty) (ht : tgt ∈ textTargets) (s : List Nat) (d : Bool) :
+    verdict (convertString tgt s d) ≠ .broken ∧
+    ∀ o n, convertString tgt s d = .ok (o, n) → TextOK tgt s d o n :=
+  ⟨convertString_notBroken tgt ht s d, fun o n h => convertString_ok tgt s d o n h⟩
+
+/-- " -129" is refused for int8, " -128x" is read as -128 from its first 5 characters; "-1" is refused for uint64;
+    2^63 is refused for int64 -/
+example : convertNumber .b [32, 45, 49, 50, 57] true = .err .BadValue := by decide
+example : convertNumber .b [32, 45, 49, 50, 56, 120] true = .ok (some 128, 5) := by decide
+example : convertNumber .t [45, 49] true = .err .BadValue := by decide
+example : numeral [32, 45, 49, 50, 56] = some (-128) ∧ denote .b 128 = -128 := by decide
+
+/-- Text: the query mode reports the same verdict and the same consumed length as the conversion. -/
+theorem text_query_same_verdict (tgt : Ty) (s : List Nat) :
+    convertNumber tgt s false = dropValue (convertNumber tgt s true) ∧
+    convertString tgt s false = dropValue (convertString tgt s true) :=
+  ⟨convertNumber_query tgt s, convertString_query tgt s⟩
+
+/-- Floating point -> floating point narrowing never turns a finite number into an infinity (DESIGN §5.0).
+    Statement only: rounding is outside the proved part; the clause is checked differentially against the real
+    code with the exact rounding of Spec/Float.lean (see the level note). -/
+def float_no_saturation_statement : Prop :=
+  ∀ (src tgt : Ty) (x y : FVal) (n : Nat), src ∈ Ty.floats → tgt ∈ Ty.floats →
+    conv src tgt (.flt x) true = .ok (some (.flt y), n) → x.isFinite = true → y.isFinite = true
+
 end Mpt.C07
